@@ -147,7 +147,7 @@ func genAdderProgram(rng *rand.Rand, family string, float bool, mutex bool) (ths
 			if bit >= 41 {
 				x = bf(-float64(int64(1) << uint(bit%41)))
 			}
-		case family == "pow2" || family == "contend":
+		case family == "pow2" || family == "contend" || family == "grow":
 			x = int64(1) << uint(bit%62)
 		default:
 			if rng.Intn(2) == 0 {
@@ -166,6 +166,9 @@ func genAdderProgram(rng *rand.Rand, family string, float bool, mutex bool) (ths
 		nops := 4
 		if family == "contend" {
 			nth, nops = 4, 7
+		}
+		if family == "grow" {
+			nth, nops = 5+rng.Intn(2), 10
 		}
 		for t := 0; t < nth; t++ {
 			var ops []aop
@@ -208,7 +211,7 @@ func genAdderProgram(rng *rand.Rand, family string, float bool, mutex bool) (ths
 		ths = append(ths, athread{ops: ops, phase: phase})
 	}
 	conc(1)
-	if (family != "pow2" && family != "contend") || rng.Intn(2) == 0 {
+	if (family != "pow2" && family != "contend" && family != "grow") || rng.Intn(2) == 0 {
 		maint(2)
 		if rng.Intn(2) == 0 {
 			conc(3)
@@ -236,14 +239,21 @@ func runAdder(fs *flag.FlagSet, args []string) {
 		} else if rng.Intn(2) == 0 {
 			mc = []int{2, 4, 8}[rng.Intn(3)]
 		}
+		if *cf.kind == "grow" && mc < 8 {
+			mc = 64 // let the table grow through several steps
+		}
 		adder.VerifSetMaxCells(mc)
 		family := *cf.kind
 		if family == "any" {
-			family = []string{"pow2", "mix", "contend"}[rng.Intn(3)]
+			family = []string{"pow2", "mix", "contend", "grow"}[rng.Intn(4)]
 		}
 		fastrand.Next = func() uint32 {
 			if family == "contend" {
 				return []uint32{1, 3, 5, 7, 9, 1, 1, 3}[rng.Intn(8)]
+			}
+			if family == "grow" {
+				// everybody hashes to the same few cells: repeated CAS failures drive the table through its growth steps
+				return []uint32{1, 1, 1, 5, 1, 9, 1, 13}[rng.Intn(8)]
 			}
 			if rng.Intn(4) == 0 {
 				return rng.Uint32()
@@ -266,9 +276,10 @@ func runAdder(fs *flag.FlagSet, args []string) {
 			fmt.Fprintf(out, "reset sadder %s\n", *impl)
 		}
 		s := newSched(rng, len(ths))
-		if family == "contend" {
+		if family == "contend" || family == "grow" {
 			s.stick = 0
 		}
+
 		var bodies []func()
 		var desc []string
 		for i, th := range ths {
